@@ -15,5 +15,15 @@ for d in seeded/$G/; do
     printf "%s\t%s\t%s\t%s\n" "$n" "$c" "$rc" "$cls" | tee -a $TMP
   done
 done
-if [ "$G" = "*" ]; then mv $TMP $OUT; else cat $TMP >> $OUT; rm -f $TMP; fi
+if [ "$G" = "*" ]; then mv $TMP $OUT; else
+  python3 - "$OUT" "$TMP" <<'PY'
+import sys
+out,tmp=sys.argv[1],sys.argv[2]
+new=[l for l in open(tmp) if l.strip()]
+names={l.split('\t')[0] for l in new}
+try: old=[l for l in open(out) if l.split('\t')[0] not in names]
+except FileNotFoundError: old=[]
+open(out,'w').writelines(sorted(old+new))
+PY
+  rm -f $TMP; fi
 git -C /repo status --short | head -3
